@@ -3,7 +3,7 @@ from . import core
 from .common import diff_streams, parse_kv
 from .deciders import GOALS, program_stream, event_happens
 
-LEVEL = "exploration"
+LEVEL = "proof"
 POSITIVE = {"halt": "halt", "blank": "blank", "spin_out": "spinout"}
 
 
